@@ -17,6 +17,15 @@ def registryMap : Std.HashMap (Nat × Nat) IE :=
 
 def fastLookup (ent id : Nat) : Option IE := registryMap[(ent, id)]?
 
+/-- what the C01 judgement (`chk e2e`) remembers of a session: the observation domain and the transport
+    given to `e2e open` (`stream` = tcp/tls: nothing may be lost), the templates sent, and the sequence
+    number carried by the last delivered message (`none` when a send failed or nothing was delivered) -/
+structure E2ESpec where
+  dom : Nat := 0
+  tpls : List (Nat × List IE) := []
+  stream : Bool := true
+  seq : Option Nat := none
+
 structure DState where
   coll : CState := {}
   mode : Mode := .strict
@@ -31,7 +40,7 @@ structure DState where
   e2eExp : ExpState := {}
   e2eColl : CState := {}
   e2eMode : Mode := .strict
-  e2eSpecDom : Nat × List (Nat × List IE) := (0, [])
+  e2eSpecDom : E2ESpec := {}
   agg : Agg.State := {}
   aggSpec : C06.Tracker := {}
   aggCorr : C07.Tracker := {}
